@@ -898,7 +898,7 @@ def r01_8(ctx):
             c, cv, src_it, keyv = n.value, norm(n.generators[0].target), norm(n.generators[0].iter), norm(n.key)
         if c is not None:
             seen_len.append(norm(c))
-            okl = okl or (refvar is not None and src_it == refvar and keyv == cv and c.args and norm(c.args[0]) == cv and any(k.arg == "throw_warning" and const_value(k.value) is False for k in c.keywords))
+            okl = okl or (refvar is not None and src_it == refvar and keyv == cv and c.args and norm(c.args[0]) == cv and _flag_false(repo, run, c))
     if not seen_len:
         raise AnalysisError("R01.8", run.where(), "cannot find where the reference contig lengths are computed")
     gcl = repo.func("gaftools.gfa", "GFA.get_contig_length", "R01.8")
@@ -973,3 +973,13 @@ def r01_9(ctx, m):
     ctx.require_count("R01.9", n, 3, conv.relpath, "writes through names in gaftools.conversion")
     if not any(i.rule == "R01.9" and i.verdict == "violated" for i in ctx.instances):
         ctx.holds("R01.9", conv.relpath, f"none of the {n} writes in gaftools.conversion goes through a shared table parameter (only the record being converted and locals of the call are written)")
+
+
+def _flag_false(repo, f, call):
+    """the strictness flag (second parameter after the contig) of get_path / get_contig_length is passed False"""
+    ba = repo.bound_args(f, call)
+    sig = repo.signature_of(f, call)
+    if ba is None or sig is None or len(sig[1]) < 2:
+        return False
+    v = ba.get(sig[1][1])
+    return v is not None and const_value(v, "?") is False
